@@ -95,13 +95,13 @@ fn is_sep(b: u8) -> bool {
 }
 
 /// Every ASCII string of exactly 6 bytes "hh?hh?": accepted <=> hh sep hh with
-/// hex digits; bytes are exactly the two values; consumption is 5 plus (if the
-/// 6th is a separator the lexer goes on and fails on the missing pair).
+/// hex digits (a sign is not a digit) and no dangling separator behind; the bytes
+/// are exactly the two values; exactly the 5 characters are consumed.
 #[kani::proof]
-#[kani::unwind(8)]
+#[kani::unwind(4)]
 fn lex_byte_string__two_pairs() {
     let buf = [any_ascii(), any_ascii(), any_ascii(), any_ascii(), any_ascii(), any_ascii()];
-    let input = ascii_str(&buf, 6);
+    let input = ascii_str6(&buf);
     let p0 = match (hex_val(buf[0]), hex_val(buf[1])) {
         (Some(h), Some(l)) => Some(h * 16 + l),
         _ => None,
@@ -111,142 +111,257 @@ fn lex_byte_string__two_pairs() {
         _ => None,
     };
     let ok = p0.is_some() && is_sep(buf[2]) && p1.is_some() && !is_sep(buf[5]);
-    match lex_byte_string(input) {
+    let r = lex_byte_string(input);
+    match &r {
         Ok((bytes, rest)) => {
             assert!(ok, "only HH sep HH (not followed by a dangling separator) is accepted");
             assert!(bytes.data.len() == 2 && bytes.data[0] == p0.unwrap() && bytes.data[1] == p1.unwrap(), "the bytes are the pair values in order");
             assert!(matches!(bytes.format, BytesFormat::Byte));
             assert!(is_suffix_at(input, rest, 5), "exactly the literal's characters are consumed");
-            kani::cover!(buf[2] == b'-' );
-            std::mem::forget(bytes);
+            kani::cover!(buf[2] == b'-', "dash separator");
+            kani::cover!(buf[2] == b'.', "dot separator");
+            kani::cover!(bytes.data[0] == 0xff && bytes.data[1] == 0, "extreme byte values");
         }
-        Err(e) => {
+        Err(_) => {
             assert!(!ok, "HH sep HH must be accepted");
             kani::cover!(p0.is_some() && !is_sep(buf[2]), "a single pair without separator is rejected");
-            kani::cover!(p0.is_some() && is_sep(buf[2]) && p1.is_none());
+            kani::cover!(p0.is_some() && is_sep(buf[2]) && p1.is_none(), "second pair malformed");
             kani::cover!(p0.is_some() && is_sep(buf[2]) && p1.is_some() && is_sep(buf[5]), "dangling separator");
-            std::mem::forget(e);
+            kani::cover!(buf[0] == b'+' && hex_val(buf[1]).is_some(), "sign inside a pair is rejected");
         }
     }
+    std::mem::forget(r);
+}
+
+/// loop-free ASCII view of a 6-byte buffer (keeps the unwind bound at the lexer's own need)
+fn ascii_str6(buf: &[u8; 6]) -> &str {
+    assert!(buf[0] < 128 && buf[1] < 128 && buf[2] < 128 && buf[3] < 128 && buf[4] < 128 && buf[5] < 128);
+    unsafe { std::str::from_utf8_unchecked(buf) }
+}
+
+/// Three pairs, concrete (regression obligation): mixed separators, exact bytes.
+#[kani::proof]
+#[kani::unwind(5)]
+fn lex_byte_string__three_pairs_concrete() {
+    let s: &'static str = "01:fE-7f;";
+    let r = lex_byte_string(s);
+    assert!(matches!(&r, Ok((b, rest)) if b.data.len() == 3 && b.data[0] == 1 && b.data[1] == 0xfe && b.data[2] == 0x7f && is_suffix_at(s, rest, 8)));
+    kani::cover!(r.is_ok());
+    std::mem::forget(r);
 }
 
 // ---------------------------------------------------------------------------
-// K2: quoted strings.  Source items are drawn from a symbolic kind + payload.
+// K2: quoted strings.  Source items of a CONSTANT kind with symbolic payload
+// (every byte value in the escape forms), so that the input length is constant.
+// kind: 0 plain ASCII char (not `"` or `\`), 1 `\"`, 2 `\\`, 3 `\xHH`, 4 `\OOO`,
+// 5 the two-byte character U+0080..U+07FF written raw.
 
-/// Writes one source item into `src` at `*n` and the bytes it denotes into
-/// `out` at `*m`.  kind: 0 plain ASCII char (not `"` or `\`), 1 `\"`, 2 `\\`,
-/// 3 `\xHH`, 4 `\OOO`.
-fn put_item(kind: u8, payload: u8, src: &mut [u8], n: &mut usize, out: &mut [u8], m: &mut usize) {
+const fn item_len(kind: u8) -> usize {
+    match kind {
+        0 => 1,
+        1 | 2 | 5 => 2,
+        _ => 4,
+    }
+}
+
+const fn item_out(kind: u8) -> usize {
+    if kind == 5 { 2 } else { 1 }
+}
+
+fn put_item(kind: u8, payload: u8, src: &mut [u8], n: usize, out: &mut [u8], m: usize) {
     const HEX: &[u8; 16] = b"0123456789abcdef";
     match kind {
         0 => {
             kani::assume(payload < 128 && payload != b'"' && payload != b'\\');
-            src[*n] = payload;
-            *n += 1;
-            out[*m] = payload;
+            src[n] = payload;
+            out[m] = payload;
         }
         1 => {
-            src[*n] = b'\\';
-            src[*n + 1] = b'"';
-            *n += 2;
-            out[*m] = b'"';
+            src[n] = b'\\';
+            src[n + 1] = b'"';
+            out[m] = b'"';
         }
         2 => {
-            src[*n] = b'\\';
-            src[*n + 1] = b'\\';
-            *n += 2;
-            out[*m] = b'\\';
+            src[n] = b'\\';
+            src[n + 1] = b'\\';
+            out[m] = b'\\';
         }
         3 => {
-            src[*n] = b'\\';
-            src[*n + 1] = b'x';
-            src[*n + 2] = HEX[(payload >> 4) as usize];
-            src[*n + 3] = HEX[(payload & 15) as usize];
-            *n += 4;
-            out[*m] = payload;
+            src[n] = b'\\';
+            src[n + 1] = b'x';
+            src[n + 2] = HEX[(payload >> 4) as usize];
+            src[n + 3] = HEX[(payload & 15) as usize];
+            out[m] = payload;
+        }
+        4 => {
+            src[n] = b'\\';
+            src[n + 1] = b'0' + (payload >> 6);
+            src[n + 2] = b'0' + ((payload >> 3) & 7);
+            src[n + 3] = b'0' + (payload & 7);
+            out[m] = payload;
         }
         _ => {
-            src[*n] = b'\\';
-            src[*n + 1] = b'0' + (payload >> 6);
-            src[*n + 2] = b'0' + ((payload >> 3) & 7);
-            src[*n + 3] = b'0' + (payload & 7);
-            *n += 4;
-            out[*m] = payload;
+            // a raw (unescaped) two-byte UTF-8 character stands for its own two bytes
+            let lead = 0xc2 + (payload >> 6) % 30;
+            let cont = 0x80 + (payload & 0x3f);
+            src[n] = lead;
+            src[n + 1] = cont;
+            out[m] = lead;
+            out[m + 1] = cont;
         }
     }
-    *m += 1;
 }
 
-/// Every body of K items (each of the five kinds, every byte value in the
-/// escape forms) followed by the closing quote and one more character decodes
-/// to exactly the denoted bytes and consumes exactly the literal.
-fn quoted_items<const K: usize>() {
-    let mut src = [0u8; 16];
-    let mut out = [0u8; 4];
-    let mut n = 0;
-    let mut m = 0;
-    let mut i = 0;
-    while i < K {
-        let kind: u8 = kani::any();
-        kani::assume(kind < 5);
-        put_item(kind, kani::any(), &mut src, &mut n, &mut out, &mut m);
-        i += 1;
-    }
-    src[n] = b'"';
-    src[n + 1] = b'z';
-    let input = ascii_str(&src, n + 2);
-    match lex_quoted_string_as_vec(input) {
+/// A body of two items of kinds K1, K2 followed by the closing quote and one more
+/// character decodes to exactly the denoted bytes and consumes exactly the literal
+/// (LEN = total source length, OUT = decoded length: constants of the obligation).
+fn quoted_items<const K1: u8, const K2: u8, const LEN: usize, const OUT: usize>() {
+    assert!(LEN == item_len(K1) + item_len(K2) + 2 && OUT == item_out(K1) + item_out(K2));
+    let mut src = [0u8; LEN];
+    let mut out = [0u8; OUT];
+    put_item(K1, kani::any(), &mut src, 0, &mut out, 0);
+    put_item(K2, kani::any(), &mut src, item_len(K1), &mut out, item_out(K1));
+    src[LEN - 2] = b'"';
+    src[LEN - 1] = b'z';
+    // valid UTF-8 by construction (ASCII + well-formed two-byte sequences)
+    let input = unsafe { std::str::from_utf8_unchecked(&src) };
+    let r = lex_quoted_string_as_vec(input);
+    match &r {
         Ok((v, rest)) => {
-            assert!(v.len() == K, "one byte per source item");
+            assert!(v.len() == OUT, "one byte per escape / plain character, the character's bytes otherwise");
             let mut i = 0;
-            while i < K {
+            while i < OUT {
                 assert!(v[i] == out[i], "each item denotes its documented byte");
                 i += 1;
             }
-            assert!(is_suffix_at(input, rest, n + 1), "consumes up to and including the closing quote");
-            std::mem::forget(v);
+            assert!(is_suffix_at(input, rest, LEN - 1), "consumes up to and including the closing quote");
+            kani::cover!(v[0] == 0xff || K1 < 3, "byte 0xff through an escape");
+            kani::cover!(v[0] == 0 || K1 < 3, "byte 0 through an escape");
         }
-        Err(e) => {
-            std::mem::forget(e);
+        Err(_) => {
             assert!(false, "a well-formed quoted string must be accepted");
         }
     }
+    std::mem::forget(r);
 }
 
 #[kani::proof]
-#[kani::unwind(8)]
-fn lex_quoted_string__one_item() {
-    quoted_items::<1>()
+#[kani::unwind(10)]
+fn lex_quoted_string__hex_then_plain() {
+    quoted_items::<3, 0, 7, 2>()
 }
 
 #[kani::proof]
-#[kani::unwind(12)]
-fn lex_quoted_string__two_items() {
-    quoted_items::<2>()
+#[kani::unwind(10)]
+fn lex_quoted_string__oct_then_quote_escape() {
+    quoted_items::<4, 1, 8, 2>()
 }
 
-/// Malformed quoted strings: unterminated -> MissingEndingQuote; an escape
-/// other than " \ x 0-7 -> InvalidCharacterEscape.
 #[kani::proof]
-#[kani::unwind(8)]
-fn lex_quoted_string__malformed_rejected() {
-    // unterminated: one plain char, no closing quote
+#[kani::unwind(10)]
+fn lex_quoted_string__backslash_escape_then_hex() {
+    quoted_items::<2, 3, 8, 2>()
+}
+
+#[kani::proof]
+#[kani::unwind(10)]
+fn lex_quoted_string__plain_then_oct() {
+    quoted_items::<0, 4, 7, 2>()
+}
+
+#[kani::proof]
+#[kani::unwind(10)]
+fn lex_quoted_string__two_byte_char_then_plain() {
+    quoted_items::<5, 0, 5, 3>()
+}
+
+/// `\x` followed by ANY two ASCII characters: accepted <=> both are hex digits.
+#[kani::proof]
+#[kani::unwind(10)]
+fn lex_quoted_string__hex_escape_needs_two_hex_digits() {
+    let c0 = any_ascii();
+    let c1 = any_ascii();
+    let src = [b'\\', b'x', c0, c1, b'"', b'z'];
+    let input = ascii_str6(&src);
+    let want = match (hex_val(c0), hex_val(c1)) {
+        (Some(h), Some(l)) => Some(h * 16 + l),
+        _ => None,
+    };
+    let r = lex_quoted_string_as_vec(input);
+    match &r {
+        Ok((v, rest)) => {
+            assert!(want.is_some(), "an escape that is not exactly two hex digits is rejected");
+            assert!(v.len() == 1 && Some(v[0]) == want && is_suffix_at(input, rest, 5));
+            kani::cover!(v[0] == 0xab, "mixed-case / letter digits");
+        }
+        Err(_) => {
+            assert!(want.is_none(), "two hex digits are accepted");
+            kani::cover!(hex_val(c0).is_some() && c1 == b'"', "one hex digit then the closing quote");
+            kani::cover!(c0 == b'+', "sign");
+        }
+    }
+    std::mem::forget(r);
+}
+
+/// `\` followed by an octal digit and ANY two ASCII characters: accepted <=> all
+/// three are octal digits and the value fits a byte.
+#[kani::proof]
+#[kani::unwind(10)]
+fn lex_quoted_string__oct_escape_needs_three_oct_digits() {
+    let c0 = any_ascii();
+    kani::assume(b'0' <= c0 && c0 <= b'7');
+    let c1 = any_ascii();
+    let c2 = any_ascii();
+    let src = [b'\\', c0, c1, c2, b'"', b'z'];
+    let input = ascii_str6(&src);
+    let want = match (oct_val(c0), oct_val(c1), oct_val(c2)) {
+        (Some(a), Some(b), Some(c)) if a <= 3 => Some(a * 64 + b * 8 + c),
+        _ => None,
+    };
+    let r = lex_quoted_string_as_vec(input);
+    match &r {
+        Ok((v, rest)) => {
+            assert!(want.is_some(), "an escape that is not exactly three octal digits <= 377 is rejected");
+            assert!(v.len() == 1 && Some(v[0]) == want && is_suffix_at(input, rest, 5));
+            kani::cover!(v[0] == 0o377, "largest octal escape");
+        }
+        Err(_) => {
+            assert!(want.is_none(), "three octal digits <= 377 are accepted");
+            kani::cover!(oct_val(c1).is_some() && c2 == b'"', "two octal digits then the closing quote");
+            kani::cover!(c0 == b'4' && oct_val(c1).is_some() && oct_val(c2).is_some(), "400 and above");
+        }
+    }
+    std::mem::forget(r);
+}
+
+/// Malformed quoted strings: unterminated -> MissingEndingQuote.
+#[kani::proof]
+#[kani::unwind(6)]
+fn lex_quoted_string__unterminated_rejected() {
     let c = any_ascii();
     kani::assume(c != b'"' && c != b'\\');
-    let buf = [c];
-    let r = lex_quoted_string_as_vec(ascii_str(&buf, 1));
-    assert!(matches!(r, Err((LexErrorKind::MissingEndingQuote, _))), "unterminated strings are rejected");
+    let buf = [c, b'a'];
+    let r = lex_quoted_string_as_vec(unsafe { std::str::from_utf8_unchecked(&buf) });
+    assert!(matches!(&r, Err((LexErrorKind::MissingEndingQuote, _))), "unterminated strings are rejected");
+    kani::cover!(r.is_err());
     std::mem::forget(r);
-    // bad escape
+    // lone backslash at the end
+    let r = lex_quoted_string_as_vec("a\\");
+    assert!(matches!(&r, Err((LexErrorKind::MissingEndingQuote, _))));
+    std::mem::forget(r);
+}
+
+/// An escape other than `"` `\` `x` `0`-`7` -> InvalidCharacterEscape.
+#[kani::proof]
+#[kani::unwind(6)]
+fn lex_quoted_string__unknown_escape_rejected() {
     let e = any_ascii();
     kani::assume(e != b'"' && e != b'\\' && e != b'x' && !(b'0'..=b'7').contains(&e));
     let buf = [b'\\', e, b'"'];
-    let r = lex_quoted_string_as_vec(ascii_str(&buf, 3));
-    assert!(matches!(r, Err((LexErrorKind::InvalidCharacterEscape, _))), "unknown escapes are rejected");
-    std::mem::forget(r);
-    // lone backslash at the end
-    let r = lex_quoted_string_as_vec("\\");
-    assert!(matches!(r, Err((LexErrorKind::MissingEndingQuote, _))));
+    let r = lex_quoted_string_as_vec(unsafe { std::str::from_utf8_unchecked(&buf) });
+    assert!(matches!(&r, Err((LexErrorKind::InvalidCharacterEscape, _))), "unknown escapes are rejected");
+    kani::cover!(e == b'n', "\\n is not an escape of this language");
+    kani::cover!(e == b'8');
     std::mem::forget(r);
 }
 
@@ -310,19 +425,20 @@ fn raw_string<const H: usize, const L: usize>() {
     src[n] = b'z';
     n += 1;
     let input = ascii_str(&src, n);
-    match lex_raw_string_as_str(input) {
+    let r = lex_raw_string_as_str(input);
+    match &r {
         Ok(((body, hashes), rest)) => {
-            assert!(hashes as usize == H, "the number of # is reported");
-            assert!(body.as_bytes() == &src[body_at..body_end], "the raw body is taken verbatim");
+            assert!(*hashes as usize == H, "the number of # is reported");
+            assert!(body.len() == L && std::ptr::eq(body.as_ptr(), unsafe { input.as_ptr().add(body_at) }), "the raw body is taken verbatim");
             assert!(is_suffix_at(input, rest, lit_end), "exactly the literal is consumed");
-            kani::cover!(L > 0 && src[body_at] == b'"', "body containing a quote");
-            std::mem::forget(body);
+            kani::cover!(H == 0 || (L > 0 && src[body_at] == b'"'), "body containing a quote");
+            kani::cover!(H < 2 || L < 2 || (src[body_at] == b'"' && src[body_at + 1] == b'#'), "body containing a quote and a run of # one shorter than the delimiter");
         }
-        Err(e) => {
-            std::mem::forget(e);
+        Err(_) => {
             assert!(false, "a well-formed raw string must be accepted");
         }
     }
+    std::mem::forget(r);
 }
 
 #[kani::proof]
@@ -332,9 +448,21 @@ fn lex_raw_string__h0_l2() {
 }
 
 #[kani::proof]
+#[kani::unwind(10)]
+fn lex_raw_string__h1_l2() {
+    raw_string::<1, 2>()
+}
+
+#[kani::proof]
 #[kani::unwind(12)]
 fn lex_raw_string__h1_l3() {
     raw_string::<1, 3>()
+}
+
+#[kani::proof]
+#[kani::unwind(12)]
+fn lex_raw_string__h2_l2() {
+    raw_string::<2, 2>()
 }
 
 #[kani::proof]
